@@ -33,6 +33,17 @@ def case(draw):
                               horizon=(1, 5), ic_prob=20, tols=('1e-6', '1e-8', '1e-4', None), user_t=(False, False, True),
                               alias_ic=False))
     spec['gen_reduction'] = draw(st.sampled_from([False, False, True]))
+    # the step counter k may be used by any equation, and the time axis may be defined without it
+    tmode = draw(st.sampled_from(['as-drawn', 'lagged-t', 'as-drawn', 'lagged-t']))
+    if tmode == 'lagged-t':
+        spec['eqs'] = [e for e in spec['eqs'] if e[2] != 't']
+        spec['eqs'].append(['t', 't_prev + 0.25', 't'])
+        spec['lags'].append(['t_prev', 't', '(k-1)'])
+        spec['cert']['lam']['t'] = 1.0
+    if draw(st.sampled_from([True, False])):
+        spec['eqs'].append(['kk', draw(st.sampled_from(['2.0*k + 1.0', '0.5*k', 'k*k - 1.0'])), 'leaf'])
+        spec['cert']['lam']['kk'] = 0.0
+    spec['layout']['perm'] = None
     if draw(st.sampled_from([True, False])):
         # give every non-constant variable an initial condition, so that the generated module and the in-process
         # solver start from the same k=0 state and their series can be compared
